@@ -15,6 +15,12 @@ THEOREMS = [
          clause="1D cooling stage: rho*cp*dz*sum(T'-T) = dt*(q_shelf+q_e) exactly, any Nz >= 2, any field"),
     dict(name="Snow.C02.cool1D_conservative_model", strength="full",
          clause="the same telescoping identity for the executable 1D stencil (Snow.coolStencil)"),
+    dict(name="Snow.C02.cool1D_conservative_field", strength="full",
+         clause="the model's 1D cooling step (coolField1D): enthalpy change = dt*(K_shelf*(T_sh-T_0) + qEvap), qEvap = 0 "
+                "outside VISF / the vacuum window (qEvap_none, qEvap_outside): shelf at the bottom, evaporation at the top "
+                "in the window, insulated elsewhere"),
+    dict(name="Snow.Stencil1D.qEvap_none", strength="full", clause="no evaporative flux unless the configuration is VISF (1D)"),
+    dict(name="Snow.Stencil1D.qEvap_outside", strength="full", clause="no evaporative flux outside the vacuum window (1D)"),
     dict(name="Snow.C02.nucleation_adiabatic", strength="full",
          clause="2D nucleation jump: cp*m*(T*-T_nuc) = Dh*m_i(T*), T_nuc < T* < T_eq_l, 0 < m_i < m_w"),
     dict(name="Snow.C02.nucleation_adiabatic_0D1D", strength="full",
@@ -45,6 +51,12 @@ THEOREMS = [
     dict(name="Snow.C02.solid1D_is_model", strength="full",
          clause="the stencil of solid1D_balance_partial is the temperature update of the executable 1D model "
                 "(Snow.solidStep1D), node by node"),
+    dict(name="monitored:energy_balance_few_percent", strength="monitored",
+         clause="balance within a few percent at every reported time in the solidification stage and in 2D: enthalpy "
+                "accounting on real recorded fields"),
+    dict(name="monitored:boundary_fluxes_applied", strength="monitored",
+         clause="the flux actually applied at the top and at the bottom (recovered from consecutive recorded fields) "
+                "equals the boundary condition, 1D and 2D, both stages"),
     dict(name="Snow.C02.nonvacuous", strength="nonvacuity",
          clause="hypotheses of nucleation_adiabatic hold for the default solution at -10 C"),
 ]
@@ -57,6 +69,9 @@ TRUSTED = [
     "cell volumes of the reported grid, fluxes recomputed from the reported fields",
 ]
 ASSUMPTIONS = [
+    "nucleation_adiabatic(_0D1D) assume depression = k_f/M_s * mass_solute/mass_water (hdep) -- a relation between "
+    "entries of Snowing.const established by calculateDerived (C07.DerivedOK.hdep derives it from the derived-constant "
+    "relations; C02.nonvacuous instantiates every hypothesis on the default configuration)",
     "'within a few percent' is decided by evaluation on real runs, not by a theorem: tolerance 3 % of the heat "
     "exchanged so far + the enthalpy of one grid layer (1/Nz of the product; + 1/Nr with a cooled wall)",
     "runs have <= 10 000 steps so that every step is recorded",
